@@ -523,8 +523,8 @@ class Node(object):
         """
         Kills a server when they go off duty.
         """
-        srvr.total_time = self.increment_time(self.next_event_date, -srvr.start_date)
-        self.overtime.append(self.increment_time(self.next_event_date, -srvr.shift_end))
+        srvr.total_time = self.increment_time(self.now, -srvr.start_date)
+        self.overtime.append(self.increment_time(self.now, -srvr.shift_end))
         self.all_servers_busy.append(srvr.busy_time)
         self.all_servers_total.append(srvr.total_time)
         indx = self.servers.index(srvr)
